@@ -50,6 +50,12 @@ pub enum Mutation {
     DuplicateSig(u16),
     /// signature `which`+1 replaced by a second, different signature of signer `which` (other flag byte)
     SameSignerTwice(u16, u8),
+    /// the unlocking script supplies no signature at all: 0 `OP_1 OP_RETURN`, 1 `OP_RETURN`, 2 `OP_1`, 3 `OP_1 OP_1 OP_RETURN`, 4 empty,
+    /// 5 one opaque (coinbase-style) element declaring more data than it holds, 6 a direct-push element of 76 bytes (whose
+    /// serialisation begins with the PUSHDATA1 opcode)
+    UnlockWithoutSignature(u8),
+    /// `OP_RETURN <junk>` appended to the valid unlocking script: it ends the unlocking script only, the spend stays valid
+    ReturnAfterSignatures,
     /// a byte with a flag's value inserted between DER signature `which` and its flag byte
     ExtraByteBeforeFlag(u16, u8),
     /// the flag byte of signature `which` removed (the DER signature's own last byte is then read as the flag)
@@ -214,7 +220,7 @@ impl Property for C15 {
     const ID: &'static str = "C15";
 
     fn rule() -> String {
-        "Spending transactions (1..4 inputs, 0..4 outputs, boundary-valued fields), any input index, any u64 declared value, 1..3 keys (both compression forms, boundary scalars); locking scripts P2PK, P2PKH and bare m-of-n multisig (1<=m<=n<=3), each also in the ...VERIFY OP_1 form, with OP_CODESEPARATOR inserted at random positions, and (35 %) preceded by or placed inside conditionals on constant conditions whose branches hold NOPs, code separators and further conditionals (so the last executed separator may sit inside a taken branch, after a skipped one, or after a whole conditional, and the subscript may begin inside a conditional); each signature's flag from the twelve standard bytes; the spend is built and signed through the library's own API (Transaction::sign, set_locking_script, set_satoshis, pushes for the unlocking script) and then optionally mutated in one field (version, locktime, an outpoint, a sequence, an output value/script, an added output, the declared value, a public key, r, s, the flag byte, signature order, a dropped signature, a foreign signer, a signature over the byte-reversed digest, a signature over the wrong subscript, one signer's signature used twice, a flag-valued byte inserted before the flag byte, the flag byte removed). Half of the cases run the spend a second time on the very Transaction object that produced the signatures (its sighash caches warm), edited through set_version / set_nlocktime / set_input / set_output / add_output instead of re-parsed; it must serialise like the re-parsed spend and give the same verdict. Oracle: the reference predicts accept/reject by verifying every (signature, key) pair with the reference ECDSA over reference SHA-256d of the reference preimage (C03/C10 oracle) of the current transaction with the flag from the signature, the subscript after the last code separator executed before the CHECK opcode (found by walking the written-out script with its known conditions) and the declared value, multisig by ordered matching; the library must accept (run Ok and true on top) exactly when the reference does. Non-trivial = a mutated spend, a flag other than ALL, a code separator, a conditional, or m < n; distinct by hash of the serialised case.".into()
+        "Spending transactions (1..4 inputs, 0..4 outputs, boundary-valued fields), any input index, any u64 declared value, 1..3 keys (both compression forms, boundary scalars); locking scripts P2PK, P2PKH and bare m-of-n multisig (1<=m<=n<=3), each also in the ...VERIFY OP_1 form, with OP_CODESEPARATOR inserted at random positions, and (35 %) preceded by or placed inside conditionals on constant conditions whose branches hold NOPs, code separators and further conditionals (so the last executed separator may sit inside a taken branch, after a skipped one, or after a whole conditional, and the subscript may begin inside a conditional); each signature's flag from the twelve standard bytes; the spend is built and signed through the library's own API (Transaction::sign, set_locking_script, set_satoshis, pushes for the unlocking script) and then optionally mutated in one field (version, locktime, an outpoint, a sequence, an output value/script, an added output, the declared value, a public key, r, s, the flag byte, signature order, a dropped signature, a foreign signer, a signature over the byte-reversed digest, a signature over the wrong subscript, one signer's signature used twice, a flag-valued byte inserted before the flag byte, the flag byte removed, an unlocking script without any signature - OP_1 OP_RETURN, OP_RETURN, OP_1, empty, an opaque element or an oversized direct push that would absorb the locking script -, OP_RETURN and junk appended to the valid unlocking script). Half of the cases run the spend a second time on the very Transaction object that produced the signatures (its sighash caches warm), edited through set_version / set_nlocktime / set_input / set_output / add_output instead of re-parsed; it must serialise like the re-parsed spend and give the same verdict. Oracle: the reference predicts accept/reject by verifying every (signature, key) pair with the reference ECDSA over reference SHA-256d of the reference preimage (C03/C10 oracle) of the current transaction with the flag from the signature, the subscript after the last code separator executed before the CHECK opcode (found by walking the written-out script with its known conditions) and the declared value, multisig by ordered matching; the library must accept (run Ok and true on top) exactly when the reference does. Non-trivial = a mutated spend, a flag other than ALL, a code separator, a conditional, or m < n; distinct by hash of the serialised case.".into()
     }
 
     fn assumptions() -> Vec<String> {
@@ -251,6 +257,8 @@ impl Property for C15 {
             any::<u16>().prop_map(Mutation::WrongSubscript),
             (any::<u16>(), 0u8..12).prop_map(|(w, x)| Mutation::ExtraByteBeforeFlag(w, x)),
             any::<u16>().prop_map(Mutation::DropFlagByte),
+            (0u8..7).prop_map(Mutation::UnlockWithoutSignature),
+            Just(Mutation::ReturnAfterSignatures),
             any::<u16>().prop_map(Mutation::DuplicateSig),
             (any::<u16>(), 0u8..12).prop_map(|(w, f)| Mutation::SameSignerTwice(w, f)),
         ];
@@ -421,6 +429,8 @@ impl Property for C15 {
                         mutated = false;
                     }
                 }
+                // applied when the unlocking script is assembled (step 3)
+                Mutation::UnlockWithoutSignature(_) | Mutation::ReturnAfterSignatures => {}
                 Mutation::ExtraByteBeforeFlag(w, x) => {
                     let k = gen::pick(*w, sigs.len());
                     let at = sigs[k].len() - 1;
@@ -465,10 +475,37 @@ impl Property for C15 {
                 }
             }
         }
+        let mut no_signature = false;
+        let mut special_unlock: Option<Script> = None;
+        match &c.mutation {
+            Some(Mutation::UnlockWithoutSignature(k)) => {
+                no_signature = true;
+                unlock = match k % 7 {
+                    0 => vec![El::Op(0x51), El::Op(0x6a)],
+                    1 => vec![El::Op(0x6a)],
+                    2 => vec![El::Op(0x51)],
+                    3 => vec![El::Op(0x51), El::Op(0x51), El::Op(0x6a)],
+                    _ => vec![],
+                };
+                match k % 7 {
+                    5 => special_unlock = Some(Script::from_coinbase_bytes(&[0x23]).map_err(|e| failure("from_coinbase_bytes", e.to_string(), "Ok"))?),
+                    6 => special_unlock = Some(Script::from_script_bits(vec![bsv::ScriptBit::Push(std::iter::once(0x4bu8).chain(std::iter::repeat(0x51).take(75)).collect())])),
+                    _ => {}
+                }
+            }
+            Some(Mutation::ReturnAfterSignatures) => {
+                unlock.push(El::Op(0x6a));
+                unlock.push(push_el(&[0xde, 0xad]));
+            }
+            _ => {}
+        }
         let mut spend = parse_fresh(&r)?;
         let mut txin = spend.get_input(idx).ok_or_else(|| failure("get_input", "None", "Some"))?;
         // plain P2PKH spends are assembled through the address API (get_locking_script / get_unlocking_script)
-        let mut unlock_script = script_from_els(&unlock);
+        let mut unlock_script = match special_unlock {
+            Some(s) => s,
+            None => script_from_els(&unlock),
+        };
         let mut lock_final = lock_final;
         if c.kind % 3 == 1 && c.codeseps.is_empty() && c.wrap.is_none() && !c.verify_form && !mutated {
             let pk = bsv::PublicKey::from_bytes(&key_bytes[0]).map_err(|e| failure("public_from_bytes", e.to_string(), "Ok"))?;
@@ -503,19 +540,28 @@ impl Property for C15 {
                 sigs.len() == sp.signer_idx.len() && ref_multisig(&r, idx, &sigs, &key_bytes, &sub_final, value)
             }
         };
+        // an unlocking script that supplies no signature cannot satisfy a signature check (the unlocking script is evaluated
+        // on its own: an OP_RETURN in it ends it, not the locking script; its elements cannot absorb the locking script)
+        let predicted = predicted && !no_signature;
         if !mutated && !predicted {
             return Err(failure("harness_self_check", "the reference rejects an unmutated spend signed through the API", "accept (if the library's signatures are right, C03/C10)"));
         }
 
         // 5. run
-        let mut interp = lib_call("Interpreter::from_transaction", || Interpreter::from_transaction(&spend, idx))?.map_err(|e| failure("from_transaction", e.to_string(), "Ok"))?;
-        let res = lib_call("run", || interp.run())?;
-        let top_true = interp.state().stack.last().map(|t| crate::refimpl::interp_model::truthy(t)).unwrap_or(false);
+        // (a refusal to build the interpreter at all is a rejection of the spend)
+        let (res, top) = match lib_call("Interpreter::from_transaction", || Interpreter::from_transaction(&spend, idx))? {
+            Ok(mut interp) => {
+                let res = lib_call("run", || interp.run())?.map_err(|e| e.to_string());
+                (res, interp.state().stack.last().cloned())
+            }
+            Err(e) => (Err(format!("from_transaction: {}", e)), None),
+        };
+        let top_true = top.as_ref().map(|t| crate::refimpl::interp_model::truthy(t)).unwrap_or(false);
         let accepted = res.is_ok() && top_true;
         if accepted != predicted {
             return Err(failure(
                 if predicted { "valid_spend_accepted" } else { "invalid_spend_rejected" },
-                format!("accepted={} (run {:?}, top of stack {:?}) kind {} mutation {:?}", accepted, res.as_ref().map_err(|e| e.to_string()), interp.state().stack.last().map(hex::encode), c.kind % 3, c.mutation),
+                format!("accepted={} (run {:?}, top of stack {:?}) kind {} mutation {:?}", accepted, res, top.as_ref().map(hex::encode), c.kind % 3, c.mutation),
                 format!("accepted={} by the reference verifier (subscript {}, value {}, sigs {:?})", predicted, short_hex(&sub_final), value, sigs.iter().map(hex::encode).collect::<Vec<_>>()),
             ));
         }
@@ -557,14 +603,19 @@ impl Property for C15 {
             if lb != sb {
                 return Err(failure("edited_object_serialises_like_the_reparsed_spend", short_hex(&lb), short_hex(&sb)));
             }
-            let mut interp = lib_call("Interpreter::from_transaction", || Interpreter::from_transaction(&live, idx))?.map_err(|e| failure("from_transaction", e.to_string(), "Ok"))?;
-            let res = lib_call("run", || interp.run())?;
-            let top_true = interp.state().stack.last().map(|t| crate::refimpl::interp_model::truthy(t)).unwrap_or(false);
+            let (res, top) = match lib_call("Interpreter::from_transaction", || Interpreter::from_transaction(&live, idx))? {
+                Ok(mut interp) => {
+                    let res = lib_call("run", || interp.run())?.map_err(|e| e.to_string());
+                    (res, interp.state().stack.last().cloned())
+                }
+                Err(e) => (Err(format!("from_transaction: {}", e)), None),
+            };
+            let top_true = top.as_ref().map(|t| crate::refimpl::interp_model::truthy(t)).unwrap_or(false);
             let accepted = res.is_ok() && top_true;
             if accepted != predicted {
                 return Err(failure(
                     if predicted { "valid_spend_accepted_on_signing_object" } else { "invalid_spend_rejected_on_signing_object" },
-                    format!("accepted={} (run {:?}) on the transaction object that signed, edited through the setters; mutation {:?}", accepted, res.as_ref().map_err(|e| e.to_string()), c.mutation),
+                    format!("accepted={} (run {:?}) on the transaction object that signed, edited through the setters; mutation {:?}", accepted, res, c.mutation),
                     format!("accepted={} by the reference verifier (and by the library on the re-parsed transaction)", predicted),
                 ));
             }
